@@ -858,6 +858,12 @@ def apply_mutator(g, mut):
         g.chunk(n_node=arg, n_edge=arg, n_face=arg)
         names = [str(k) for k in g._ds.variables if str(k) in GV and (str(k) in g.coordinates | g.connectivity | g.descriptors)]
         return [["SV", GV[n], [5], [[0, 0]]] for n in names]
+    elif kind == "inplace":
+        # in-place numpy write through the array a public property returns
+        v = getattr(g, arg).values
+        flat = v.reshape(-1)
+        flat[0] = flat[0] + 1
+        return [["WB", GV[arg], [7]]]
     elif kind == "attrs":
         g.attrs[arg] = "edited"
         return [["SA", -1, 77, 1]]
@@ -942,6 +948,83 @@ def cmp_copy(ck, c, res, mo):
     if res["raises"] is None and bool(m_changed) != bool(res["changed"]):
         ck.corr_failures.append({"case": c, "what": "other side changed", "impl": res["changed"], "model": m_changed,
                                  "diff": res["diff"]})
+
+
+# ---------------------------------------------------------------------------------------------
+# experiment: sessions (grids, copies, exported datasets; mutations through any of them)
+
+SESSION_EDITS = [("inplace", "node_lon"), ("inplace", "face_node_connectivity"), ("setdata", "node_lat"), ("addvar", None),
+                 ("replacevar", "node_lon"), ("attrs", None), ("varattrs", "node_lon"), ("delvar", "node_lat")]
+
+
+def run_session(ck, c):
+    """roots = the grid, its copies, datasets returned by to_xarray('ugrid').  After every step every root
+    other than the one a mutation goes through must report what it reported before"""
+    g0 = base_grid(c)
+    cells, root, _ = heap_of_grid(g0)
+    roots = [("grid", g0)]
+    res = {"raises": None, "changed": False, "impl_changed": []}
+    msteps = []
+
+    def obs_of(r):
+        return obs_grid(r[1]) if r[0] == "grid" else obs_ds(r[1])
+    for st in c["steps"]:
+        k = st[1] % len(roots)
+        before = [obs_of(r) for r in roots]
+        addressed = None
+        try:
+            if st[0] == "copy":
+                if roots[k][0] != "grid":
+                    continue
+                roots.append(("grid", roots[k][1].copy()))
+                msteps.append(["C", k])
+            elif st[0] == "export":
+                if roots[k][0] != "grid":
+                    continue
+                roots.append(("ds", roots[k][1].to_xarray("ugrid")))
+                msteps.append(["E", k])
+            else:
+                addressed = k
+                if roots[k][0] == "grid":
+                    mbefore = obs_of(roots[k])
+                    ops = apply_mutator(roots[k][1], tuple(st[2]))
+                    if obs_of(roots[k]) == mbefore:
+                        ops = []
+                else:
+                    ed = tuple(SESSION_EDITS[st[3] % len(SESSION_EDITS)])
+                    if ed[1] is not None and ed[1] not in roots[k][1]:
+                        continue
+                    ops = edit_dataset(roots[k][1], ed) or []
+                msteps += [["O", k, o] for o in ops]
+        except Exception as ex:
+            res["raises"] = type(ex).__name__ + ": " + str(ex)[:80]
+            break
+        after = [obs_of(r) for r in roots[:len(before)]]
+        bad = [j for j in range(len(before)) if j != addressed and before[j] != after[j]]
+        res["impl_changed"].append(bad)
+        if bad:
+            res["changed"] = True
+            j = bad[0]
+            ck.fail("session_root_changed", c, {"step": st[0], "changed_root": roots[j][0],
+                                                "through": None if addressed is None else roots[addressed][0]},
+                    detail="step %s changed what root %d (%s) reports: %s" % (st, j, roots[j][0], obs_diff(
+                        (before[j][0] if roots[j][0] == "grid" else before[j]), (after[j][0] if roots[j][0] == "grid" else after[j]))))
+            break
+    res["n_roots"] = len(roots)
+    if res["changed"] or res["raises"]:
+        return res, None
+    return res, ("session", sx([cells, root, msteps]))
+
+
+def cmp_session(ck, c, res, mo):
+    outs, n_roots = mo
+    if int(n_roots) != res["n_roots"]:
+        ck.corr_failures.append({"case": c, "what": "number of live roots", "impl": res["n_roots"], "model": n_roots})
+    # the model's steps are finer (one per elementary op); in both, no root other than the addressed one changes
+    for o in outs:
+        if len(o) > 1:
+            ck.corr_failures.append({"case": c, "what": "model: a step changed more than the addressed root", "model": o})
+            break
 
 
 # ---------------------------------------------------------------------------------------------
@@ -1400,7 +1483,8 @@ def gen_cases(ck):
     # --- copies under mutation: every mutator on either side
     muts = [("lazy", n) for n in LAZY] + [("setter", n) for n in SETTERS] + \
            [("centers", "cartesian average"), ("centers", "welzl"), ("normalize", None), ("chunk", 2),
-            ("attrs", "c19"), ("varattrs", "c19")]
+            ("attrs", "c19"), ("varattrs", "c19"), ("inplace", "node_lon"), ("inplace", "node_lat"),
+            ("inplace", "face_node_connectivity")]
     if quick:
         muts = [mu for mu in muts if mu[1] not in ("hole_edge_indices", "edge_node_distances")]
     for mu in muts * (1 if quick else 15):
@@ -1418,6 +1502,17 @@ def gen_cases(ck):
         steps = [[rng.randrange(2), list(rng.choice(muts))] for _ in range(rng.randrange(2, 6))]
         cases.append({"kind": "copyhist", "mesh": mesh_case(m), "steps": steps, "pre": [], "xyz": rng.random() < 0.4,
                       "path": rng.choice(["Grid.copy", "UxDataArray.copy", "copy.deepcopy"])})
+    # --- sessions: copies, exports and mutations through any live root
+    smuts = [("lazy", n) for n in LAZY[:8]] + [("setter", n) for n in SETTERS] + \
+            [("centers", "cartesian average"), ("normalize", None), ("chunk", 2), ("attrs", "c19"), ("varattrs", "c19"),
+             ("inplace", "node_lon"), ("inplace", "face_node_connectivity")]
+    for _ in range(12 if quick else 400):
+        m = small_mesh(rng)
+        steps = []
+        for _i in range(rng.randrange(3, 9)):
+            kind = rng.choice(["copy", "export", "op", "op", "op"])
+            steps.append([kind, rng.randrange(6), list(rng.choice(smuts)), rng.randrange(8)])
+        cases.append({"kind": "session", "mesh": mesh_case(m), "steps": steps, "pre": [], "xyz": rng.random() < 0.3})
     # --- the Grid's own containers: copy, mutate one side, export both sides with identical arguments
     gmuts = ["set_node_lon", "set_node_lat", "set_face_lon", "centers_welzl", "centers_avg", "normalize", "chunk"]
     for mu in gmuts * (1 if quick else 8):
@@ -1527,7 +1622,7 @@ def extraction_audit(ck, results):
     return n
 
 
-RUNNERS = {"copycache": run_copycache, "dageo": run_dageo, "topology": run_topology, "ugrid": run_ugrid, "adopt": run_adopt, "reader": run_reader,
+RUNNERS = {"session": run_session, "copycache": run_copycache, "dageo": run_dageo, "topology": run_topology, "ugrid": run_ugrid, "adopt": run_adopt, "reader": run_reader,
            "vertices": run_vertices, "copy": run_copy, "copyhist": run_copyhist, "export": run_export, "geo": run_geo}
 
 
@@ -1552,6 +1647,8 @@ def compare(ck, c, res, mo):
         cmp_export(ck, c, res, mo)
     elif k == "geo":
         cmp_geo(ck, c, res, mo)
+    elif k == "session":
+        cmp_session(ck, c, res, mo)
 
 
 def strip(c):
@@ -1648,7 +1745,7 @@ def main(ck):
                      "grid_attributes_shared_by_copies (not containers of the model)": sorted({a for c, res, _ in results
                                                                                                for a in res.get("shared_other_attributes", [])}),
                      "clauses_checked_on_impl": ["input_modified_by_build", "input_modified_by_use", "input_attrs_shared",
-                                                 "copy_differs_from_original", "copy_not_independent",
+                                                 "copy_differs_from_original", "copy_not_independent", "session_root_changed",
                                                  "export_edit_changes_grid"],
                      "tolerance": "booleans and integer tables exact; longitudes compared after rounding to 1e-6 degree",
                      "model_compared": ["modified input cells", "alias table (np.shares_memory)", "dataset identity (is)",
@@ -1662,8 +1759,8 @@ def main(ck):
                    "reader alias tables of MPAS/Exodus/SCRIP/ESMF/GEOS-CS/ICON are hand-transcribed into coq/Model/C19.v "
                    "and compared with the measured alias graph"]
     ck.assumptions += ["'public API' mutators are those named in the property (lazy derivation, setters, construct_face_centers, "
-                       "normalize_cartesian_coordinates, chunk) plus attrs edits; in-place numpy writes through returned "
-                       "DataArrays are applied to exports only",
+                       "normalize_cartesian_coordinates, chunk) plus attrs edits and in-place numpy writes through the arrays "
+                       "the public properties return (Grid.copy documents a deep copy)",
                        "sharing a read-only buffer with an input (np.shares_memory true) is recorded but is not by itself a "
                        "violation: the clause is 'building does not modify its inputs'"]
 
